@@ -86,99 +86,104 @@ def run(model, rep):
                  ('C06.EXCL', 'literals that must not be collected'), ('C06.PLACE', 'deepest common function namespace, enumerated'),
                  ('C06.NS', 'constants created by earlier transforms carry the namespace of the place they stand in')]:
         rep.rule(r, t)
-    # ---------------- INS
-    ins = model.func(UTIL + '.insert')
-    kinds = stmt_kinds()
-    cells = 0
-    bad = []
-    for n in range(0, 4):
-        for combo in itertools.product(sorted(kinds), repeat=n):
-            suite = [kinds[k]() for k in combo]
-            new = Obj('Assign', targets=[Obj('Name', id='A')], value=Obj('Constant', value='s'))
-            I = Interp(model, UTIL, {})
-            res = I.explore(lambda: I.materialise(I.call_function(ins.qual, [suite, new])))
-            cells += 1
-            for (o, ev, unk) in res:
-                if o[0] != 'return' or o[1] is TOP or not isinstance(o[1], list):
-                    raise AnalysisError('UNDECIDED: insert(%s) -> %s %s' % (list(combo), o, unk[:3]))
-                out = o[1]
-                pos = expected_position(combo)
-                want = suite[:pos] + [new] + suite[pos:]
-                if len(out) != len(want) or any(a is not b for a, b in zip(out, want)):
-                    got = ['NEW' if x is new else combo[suite.index(x)] if x in suite else '?' for x in out]
-                    bad.append((combo, got))
-    for (combo, got) in bad[:5]:
-        rep.violation('C06.INS', ins.loc(), 'insert(%s, NEW)' % list(combo), 'yields %s; the new statement must come directly after the leading docstrings / __future__ imports and exactly once' % got,
-                      key='C06.INS|%s' % '-'.join(combo))
-    if not bad:
-        rep.ok('C06.INS', ins.loc(), 'insert() on %d statement lists' % cells, 'new node exactly once, after the docstring/__future__ prefix, order otherwise unchanged', cells=cells, key='C06.INS|enum')
-    # every insertion of a new statement goes through insert()
-    n_ins = 0
-    for q in ('python_minifier.rename.binding.NameBinding.rename', 'python_minifier.rename.binding.BuiltinBinding.rename', RL + '.HoistedBinding.rename'):
-        fi = model.func(q)
-        for n_ in walk_own(fi.node):
-            if isinstance(n_, ast.Assign) and isinstance(n_.targets[0], ast.Attribute) and n_.targets[0].attr == 'body':
-                n_ins += 1
-                v = n_.value
-                ok = isinstance(v, ast.Call) and src(v.func) == 'list' and isinstance(v.args[0], ast.Call) and src(v.args[0].func) == 'insert' and \
-                    src(v.args[0].args[0]) == src(n_.targets[0])
-                rep.check(ok, 'C06.INS', fi.loc(n_), '%s: %s = list(insert(...))' % (fi.qual.split('.')[-2], src(n_.targets[0])), 'new statement placed by insert() into the same body',
-                          'a statement is added to a body without going through insert(): it can land before a docstring or __future__ import', key='C06.INS|site|' + q)
-            if isinstance(n_, ast.Call) and isinstance(n_.func, ast.Attribute) and n_.func.attr in ('insert', 'append') and src(n_.func.value).endswith('.body'):
-                rep.violation('C06.INS', fi.loc(n_), src(n_)[:80], 'statement added to a body directly', key='C06.INS|direct|' + q)
-    rep.floor('C06.INS', 1)   # where the inserted assignment lands in a real body is decided by C06.VAL (de-hoisting)
-
-    # ---------------- KEY
-    ex = [True, False, None, 1, 0, 1.0, 0.0, 'a', b'a', '', b'', 'True']
-    for cq, attr in ((RL + '.HoistedValue', '_value'), (RL + '.HoistedBinding', None)):
-        fi = model.method(cq, '__eq__')
-        if fi is None:
-            rep.violation('C06.KEY', model.cls(cq).path, cq.split('.')[-1] + '.__eq__', 'no __eq__: keys compare by identity', key='C06.KEY|' + cq)
-            continue
-        bad = []
-        cells = 0
-        for a in ex:
-            for b in ex:
-                if attr:
-                    so, oo = Obj(cq.rsplit('.', 1)[1], **{attr: a}), Obj(cq.rsplit('.', 1)[1], **{attr: b})
-                else:
-                    so = Obj('HoistedBinding', _value_node=Obj('Constant', value=a, kind=None))
-                    oo = Obj('HoistedBinding', _value_node=Obj('Constant', value=b, kind=None))
-                I = Interp(model, RL, {})
-                res = I.explore(lambda: I.call_method(cq, '__eq__', so, [oo]))
-                cells += 1
-                for (o, ev, unk) in res:
-                    if o[0] != 'return' or o[1] is TOP:
-                        raise AnalysisError('UNDECIDED: %s.__eq__(%r, %r) -> %s %s' % (cq, a, b, o, unk[:3]))
-                    want = type(a) is type(b) and a == b
-                    if bool(o[1]) != want:
-                        bad.append((a, b, o[1]))
-        if bad:
-            rep.violation('C06.KEY', fi.loc(), cq.split('.')[-1] + '.__eq__', 'conflates values of different type: %s' % ', '.join('%r == %r' % (a, b) for a, b, _ in bad[:4]), key='C06.KEY|' + cq)
-        else:
-            rep.ok('C06.KEY', fi.loc(), cq.split('.')[-1] + '.__eq__ on %d pairs' % cells, 'equal only for identical type and value', cells=cells, key='C06.KEY|' + cq)
-    # the dictionary of hoisted values is keyed by the type-aware wrapper
-    gb = model.func(RL + '.HoistLiterals.get_binding')
-    keyed = False
-    for n_ in walk_own(gb.node):
-        if isinstance(n_, ast.Subscript) and src(n_.value) == 'self._hoisted':
-            k = n_.slice
-            d = single_def(local_defs(gb.node), k.id) if isinstance(k, ast.Name) else k
-            keyed = isinstance(d, ast.Call) and src(d.func) == 'HoistedValue' and src(d.args[0]) == gb.positional[0]
-    rep.check(keyed, 'C06.KEY', gb.loc(), 'self._hoisted[HoistedValue(value)]', 'keyed by the type-aware wrapper of the literal value', 'the table of hoisted literals is not keyed by the type-aware wrapper', key='C06.KEY|table')
-    rep.floor('C06.KEY', 3)
-
-    # ---------------- VAL / E2E: the whole hoisting pipeline evaluated on probe modules, then de-hoisted by the checker (hoist_e2e)
+    # ---------------- VAL: hoisting end to end - the real minify() with only hoist_literals on, on probe modules, then de-hoisted by the checker (hoist_e2e)
     from . import hoist_e2e
     hoist_e2e.run(model, rep, 'C06.VAL')
 
-    # ---------------- EXCL (abstract evaluation of the collector)
-    excl(model, rep)
-    place(model, rep)
+    # ---------------- white-box rules: written against internal functions / classes of the hoister; not evaluated when those do not exist under
+    # their names - C06.VAL decides the behaviour end to end
+    def ins():
+        ins = model.func(UTIL + '.insert')
+        kinds = stmt_kinds()
+        cells = 0
+        bad = []
+        for n in range(0, 4):
+            for combo in itertools.product(sorted(kinds), repeat=n):
+                suite = [kinds[k]() for k in combo]
+                new = Obj('Assign', targets=[Obj('Name', id='A')], value=Obj('Constant', value='s'))
+                I = Interp(model, UTIL, {})
+                res = I.explore(lambda: I.materialise(I.call_function(ins.qual, [suite, new])))
+                cells += 1
+                for (o, ev, unk) in res:
+                    if o[0] != 'return' or o[1] is TOP or not isinstance(o[1], list):
+                        raise AnalysisError('UNDECIDED: insert(%s) -> %s %s' % (list(combo), o, unk[:3]))
+                    out = o[1]
+                    pos = expected_position(combo)
+                    want = suite[:pos] + [new] + suite[pos:]
+                    if len(out) != len(want) or any(a is not b for a, b in zip(out, want)):
+                        got = ['NEW' if x is new else combo[suite.index(x)] if x in suite else '?' for x in out]
+                        bad.append((combo, got))
+        for (combo, got) in bad[:5]:
+            rep.violation('C06.INS', ins.loc(), 'insert(%s, NEW)' % list(combo), 'yields %s; the new statement must come directly after the leading docstrings / __future__ imports and exactly once' % got,
+                          key='C06.INS|%s' % '-'.join(combo))
+        if not bad:
+            rep.ok('C06.INS', ins.loc(), 'insert() on %d statement lists' % cells, 'new node exactly once, after the docstring/__future__ prefix, order otherwise unchanged', cells=cells, key='C06.INS|enum')
+        # every insertion of a new statement goes through insert()
+        n_ins = 0
+        for q in ('python_minifier.rename.binding.NameBinding.rename', 'python_minifier.rename.binding.BuiltinBinding.rename', RL + '.HoistedBinding.rename'):
+            fi = model.func(q)
+            for n_ in walk_own(fi.node):
+                if isinstance(n_, ast.Assign) and isinstance(n_.targets[0], ast.Attribute) and n_.targets[0].attr == 'body':
+                    n_ins += 1
+                    v = n_.value
+                    ok = isinstance(v, ast.Call) and src(v.func) == 'list' and isinstance(v.args[0], ast.Call) and src(v.args[0].func) == 'insert' and \
+                        src(v.args[0].args[0]) == src(n_.targets[0])
+                    rep.check(ok, 'C06.INS', fi.loc(n_), '%s: %s = list(insert(...))' % (fi.qual.split('.')[-2], src(n_.targets[0])), 'new statement placed by insert() into the same body',
+                              'a statement is added to a body without going through insert(): it can land before a docstring or __future__ import', key='C06.INS|site|' + q)
+                if isinstance(n_, ast.Call) and isinstance(n_.func, ast.Attribute) and n_.func.attr in ('insert', 'append') and src(n_.func.value).endswith('.body'):
+                    rep.violation('C06.INS', fi.loc(n_), src(n_)[:80], 'statement added to a body directly', key='C06.INS|direct|' + q)
+        rep.floor('C06.INS', 1)   # where the inserted assignment lands in a real body is decided by C06.VAL (de-hoisting)
+
+    def key():
+        ex = [True, False, None, 1, 0, 1.0, 0.0, 'a', b'a', '', b'', 'True']
+        for cq, attr in ((RL + '.HoistedValue', '_value'), (RL + '.HoistedBinding', None)):
+            fi = model.method(cq, '__eq__')
+            if fi is None:
+                rep.violation('C06.KEY', model.cls(cq).path, cq.split('.')[-1] + '.__eq__', 'no __eq__: keys compare by identity', key='C06.KEY|' + cq)
+                continue
+            bad = []
+            cells = 0
+            for a in ex:
+                for b in ex:
+                    if attr:
+                        so, oo = Obj(cq.rsplit('.', 1)[1], **{attr: a}), Obj(cq.rsplit('.', 1)[1], **{attr: b})
+                    else:
+                        so = Obj('HoistedBinding', _value_node=Obj('Constant', value=a, kind=None))
+                        oo = Obj('HoistedBinding', _value_node=Obj('Constant', value=b, kind=None))
+                    I = Interp(model, RL, {})
+                    res = I.explore(lambda: I.call_method(cq, '__eq__', so, [oo]))
+                    cells += 1
+                    for (o, ev, unk) in res:
+                        if o[0] != 'return' or o[1] is TOP:
+                            raise AnalysisError('UNDECIDED: %s.__eq__(%r, %r) -> %s %s' % (cq, a, b, o, unk[:3]))
+                        want = type(a) is type(b) and a == b
+                        if bool(o[1]) != want:
+                            bad.append((a, b, o[1]))
+            if bad:
+                rep.violation('C06.KEY', fi.loc(), cq.split('.')[-1] + '.__eq__', 'conflates values of different type: %s' % ', '.join('%r == %r' % (a, b) for a, b, _ in bad[:4]), key='C06.KEY|' + cq)
+            else:
+                rep.ok('C06.KEY', fi.loc(), cq.split('.')[-1] + '.__eq__ on %d pairs' % cells, 'equal only for identical type and value', cells=cells, key='C06.KEY|' + cq)
+        # the dictionary of hoisted values is keyed by the type-aware wrapper
+        gb = model.func(RL + '.HoistLiterals.get_binding')
+        keyed = False
+        for n_ in walk_own(gb.node):
+            if isinstance(n_, ast.Subscript) and src(n_.value) == 'self._hoisted':
+                k = n_.slice
+                d = single_def(local_defs(gb.node), k.id) if isinstance(k, ast.Name) else k
+                keyed = isinstance(d, ast.Call) and src(d.func) == 'HoistedValue' and src(d.args[0]) == gb.positional[0]
+        rep.check(keyed, 'C06.KEY', gb.loc(), 'self._hoisted[HoistedValue(value)]', 'keyed by the type-aware wrapper of the literal value', 'the table of hoisted literals is not keyed by the type-aware wrapper', key='C06.KEY|table')
+        rep.floor('C06.KEY', 3)
+
+    rep.optional(['C06.INS'], ['C06.VAL'], ins)
+    rep.optional(['C06.KEY'], ['C06.VAL'], key)
+    rep.optional(['C06.EXCL'], ['C06.VAL'], lambda: excl(model, rep))
+    rep.optional(['C06.PLACE', 'C06.NS'], ['C06.VAL'], lambda: place(model, rep))
 
 
 def excl(model, rep):
     HL = RL + '.HoistLiterals'
+    model.require_method(HL, 'get_binding')      # the collector's registration point, answered by a recorder below
+    model.require_names('add_reference')
 
     def run_visit(method, node, extra_hooks=None):
         registered = []
